@@ -3,6 +3,7 @@ package main
 import (
 	_ "embed"
 	"fmt"
+	"go/token"
 	"go/types"
 	"sort"
 	"strings"
@@ -376,4 +377,149 @@ func firstLine(s string) string {
 		return s[:i]
 	}
 	return s
+}
+
+// baselineTypes: the struct types of the pinned tree (from baseline_fields.txt).
+var baselineTypeSet map[string]bool
+
+func isBaselineType(name string) bool {
+	if baselineTypeSet == nil {
+		baselineTypeSet = map[string]bool{}
+		for _, l := range strings.Split(baselineFieldsTxt, "\n") {
+			if l = strings.TrimSpace(l); l == "" || strings.HasPrefix(l, "#") {
+				continue
+			}
+			baselineTypeSet[strings.SplitN(l, "\t", 2)[0]] = true
+		}
+	}
+	return baselineTypeSet[name]
+}
+
+// carrierAlloc: al is a local variable of a struct type that does not exist on the pinned tree - a struct introduced
+// to carry values between new helpers - and is only used through its fields or copied as a whole.
+func carrierAlloc(al *ssa.Alloc) bool {
+	pt, ok := al.Type().Underlying().(*types.Pointer)
+	if !ok {
+		return false
+	}
+	nt, ok := pt.Elem().(*types.Named)
+	if !ok || nt.Obj().Pkg() == nil || isBaselineType(nt.Obj().Name()) {
+		return false
+	}
+	if _, isStruct := nt.Underlying().(*types.Struct); !isStruct {
+		return false
+	}
+	for _, r := range *al.Referrers() {
+		switch x := r.(type) {
+		case *ssa.FieldAddr:
+			for _, rr := range *x.Referrers() {
+				switch y := rr.(type) {
+				case *ssa.Store:
+					if y.Addr != ssa.Value(x) {
+						return false
+					}
+				case *ssa.UnOp, *ssa.DebugRef:
+				default:
+					return false
+				}
+			}
+		case *ssa.Store:
+			if x.Addr != ssa.Value(al) {
+				return false
+			}
+		case *ssa.UnOp, *ssa.DebugRef:
+		default:
+			return false
+		}
+	}
+	return true
+}
+
+// carrierFieldValue: the value field idx of carrier variable al holds at instruction `at` (a load of that field, or of
+// the whole struct), when one store - to the field, or of a whole struct value whose field is known in turn - is the
+// only one that can reach it; nil otherwise.
+func carrierFieldValue(al *ssa.Alloc, idx int, at ssa.Instruction, depth int) ssa.Value {
+	if depth > 6 || !carrierAlloc(al) {
+		return nil
+	}
+	type wr struct {
+		in  ssa.Instruction
+		val func() ssa.Value
+	}
+	var writes []wr
+	for _, r := range *al.Referrers() {
+		switch x := r.(type) {
+		case *ssa.FieldAddr:
+			if x.Field != idx {
+				continue
+			}
+			for _, rr := range *x.Referrers() {
+				if st, ok := rr.(*ssa.Store); ok {
+					st := st
+					writes = append(writes, wr{st, func() ssa.Value { return st.Val }})
+				}
+			}
+		case *ssa.Store:
+			st := x
+			writes = append(writes, wr{st, func() ssa.Value { return structFieldOf(st.Val, idx, depth+1) }})
+		}
+	}
+	// the last write that dominates `at` and after which no other write can reach `at`
+	var pick *wr
+	for i := range writes {
+		w := &writes[i]
+		if !dominatesInstr(w.in, at) {
+			continue
+		}
+		last := true
+		for j := range writes {
+			if i != j && canReach(at2(w.in), nil, func(in ssa.Instruction) bool { return in == writes[j].in }, nil) && canReach(at2(writes[j].in), nil, func(in ssa.Instruction) bool { return in == at }, nil) {
+				last = false
+			}
+		}
+		if last {
+			if pick != nil {
+				return nil
+			}
+			pick = w
+		}
+	}
+	if pick == nil {
+		return nil
+	}
+	return pick.val()
+}
+
+func at2(in ssa.Instruction) pt { return at(in) }
+
+// dominatesInstr: a is executed before b on every path to b.
+func dominatesInstr(a, b ssa.Instruction) bool {
+	if a.Block() == b.Block() {
+		for _, in := range a.Block().Instrs {
+			if in == a {
+				return true
+			}
+			if in == b {
+				return false
+			}
+		}
+		return false
+	}
+	return a.Block().Dominates(b.Block())
+}
+
+// structFieldOf: field idx of struct value v (a load of a carrier variable, or a call result/parameter: unknown).
+func structFieldOf(v ssa.Value, idx int, depth int) ssa.Value {
+	if depth > 6 {
+		return nil
+	}
+	if u, ok := v.(*ssa.UnOp); ok && u.Op == token.MUL {
+		if al, ok := u.X.(*ssa.Alloc); ok {
+			return carrierFieldValue(al, idx, u, depth+1)
+		}
+	}
+	if ph, ok := v.(*ssa.Phi); ok && len(ph.Edges) == 1 {
+		return structFieldOf(ph.Edges[0], idx, depth+1)
+	}
+	return nil
 }
